@@ -209,13 +209,20 @@ Definition not_expired (d : dump) : bool :=
 (* ---- C20: lock tables ------------------------------------------------------ *)
 Definition ls_of (l : dlock) : LS.lock :=
   LS.mkLock (dl_start l) (dl_end l) (key2 (dl_client l) (dl_key l)) (if dl_excl l then LS.Exclusive else LS.Shared).
+(* one lock-owner with lock-owner files under two open-owner files of the same
+   file: the lock table identifies locks by lock-owner only *)
+Definition shared_lock_owner (d : dump) : bool :=
+  existsb (fun a => existsb (fun b => negb (lf_other a =? lf_other b)
+                                       && pair_eqb (lf_client a, lf_lokey a) (lf_client b, lf_lokey b)
+                                       && opt_eqb N.eqb (d_handle_of_lofs d a) (d_handle_of_lofs d b)) (d_lofs d)) (d_lofs d).
+
 Definition locks_ok (d : dump) : string :=
   if negb (forallb (fun p => forallb (fun l => dl_cur l && match d_los_by d (dl_client l, dl_key l) with Some _ => true | None => false end) (dp_locks p)) (d_pool d))
   then "C20:lock-owner-object"
   else if negb (forallb (fun l => match d_handle_of_lofs d l with
                                   | Some h => (lf_count l =? Z.of_N (count_by (fun k => pair_eqb (dl_client k, dl_key k) (lf_client l, lf_lokey l)) (d_locks d h)))%Z
                                   | None => false end) (d_lofs d))
-  then "C20:lockcount-mismatch"
+  then (if shared_lock_owner d then "C20:shared-lock-owner-lockcount" else "C20:lockcount-mismatch")
   else if negb (forallb (fun p => forallb (fun k => existsb (fun l => pair_eqb (lf_client l, lf_lokey l) (dl_client k, dl_key k)
                                                                       && match d_handle_of_lofs d l with Some h => h =? dp_handle p | None => false end) (d_lofs d))
                                           (dp_locks p)) (d_pool d))
@@ -415,7 +422,16 @@ Definition denied_check (q : LS.lock) (owner : N * N) (tbl : list dlock) (o l ty
   else "C20:denied-without-conflict".
 Definition tables_eqb (a b : list dlock) : bool := list_eqb dlock_eqb a b.
 
+(* offset = length = 2^64-1 denotes the empty range [2^64-1, 2^64-1) *)
+Definition empty_range_granted (r : req) (rp : reply) : bool :=
+  match r, rp with
+  | RLockNew _ off len _ _ _ _ _, RpOp (ResStateid _ _) | RLockOld _ off len _ _, RpOp (ResStateid _ _) =>
+      (off =? LS.max_u64) && (len =? LS.max_u64)
+  | _, _ => false
+  end.
+
 Definition p_lock (D D' : dump) (t : Z) (fh : curfh) (r : req) (rp : reply) : string :=
+  if empty_range_granted r rp then "C20:empty-range-accepted" else
   if negb (quiet D t) then "" else
   let fresh := match owner_info D r with Some oi => match replay_candidate oi with Some _ => false | None => true end | None => true end in
   match r, fh_handle fh with
@@ -544,7 +560,9 @@ Definition mon_step (m : mon) (ob : obs) : mon * string :=
   let D' := ob_dump ob in
   let rp := ob_reply ob in
   let calls := ob_calls ob in
-  let hard : string := match rp with RpPanic => "C18:panic" | RpHang => "C19:hang" | _ => "" end%string in
+  let hard : string := match rp with
+                       | RpPanic => if shared_lock_owner D then "C20:shared-lock-owner-panic" else "C18:panic"
+                       | RpHang => "C19:hang" | _ => "" end%string in
   let '(err, pend, last) :=
     match ob_ev ob with
     | EReq g t fh r =>
